@@ -48,7 +48,7 @@ Print Assumptions C19_no_backout.
 
 (* Non-vacuity: a self-referential shape over cyclic data terminates with the loud failure;
    a two-level chain below the limit gives a report. *)
-Definition R : shape := {| sid := IRI 100; spath := Some (PPred 50); deact := false; ssev := t_Violation;
+Definition R : shape := {| sid := IRI 100; spath := Some (PPred 50); deact := false; ssev := t_Violation; smsgs := [];
    stargets := {| t_nodes := [IRI 1]; t_classes := []; t_implicit := false; t_subjects_of := []; t_objects_of := [] |};
    scomps := [CNot [IRI 100]] |}.
 Definition cyc : graph := [(IRI 1, IRI 50, IRI 2); (IRI 2, IRI 50, IRI 1)].
